@@ -41,6 +41,11 @@ theorem helpers_usable :
 theorem modules_independent :
     ∀ m ∈ modules, ∃ i : Fin 6, ∀ S : Fin 64, m.2.eval S.val = on S.val i.val := by decide
 
+/-- no helper's behaviour depends on another feature at run time: every `cfg!(feature = …)` expression inside a trait module's file
+    tests that module's own feature -/
+theorem no_cross_feature_behaviour :
+    ∀ g ∈ macroGates, ∃ m ∈ modules, m.1 = g.1 ∧ m.2 = Gate.feat g.2 := by decide
+
 /-- the default configuration enables none of the six; `all` is exactly the six; there are six flags; and no feature gate
     appears in angle.rs / geonum_mod.rs / geocollection.rs or on a core item of lib.rs — so the core model takes no
     configuration parameter -/
